@@ -519,6 +519,14 @@ func (d *Decoder) LoadParityData() error {
 				return nil, err
 			}
 
+			// A volume file need not carry a main packet of
+			// its own (e.g. one cut short right after its
+			// creator packet); the set ID already ties its
+			// packets to the index file.
+			if parityFile.mainPacket == nil {
+				return &parityFile, nil
+			}
+
 			if d.sliceByteCount != parityFile.mainPacket.sliceByteCount {
 				return nil, errors.New("slice byte count mismatch")
 			}
